@@ -36,7 +36,7 @@ theorem source_tie : Generated.C11.sourceHashes = Expected.C11.sourceHashes := b
 
 abbrev fx0 : Facts := Expected.C11.facts
 
-theorem good_expected : Good fx0 := ⟨rfl, rfl, by decide, by decide, by decide, by decide, rfl⟩
+theorem good_expected : Good fx0 := ⟨rfl, rfl, by decide, by decide, by decide, by decide, by decide, rfl⟩
 
 theorem good_generated : Good Generated.C11.facts := facts_tie ▸ good_expected
 
@@ -162,6 +162,56 @@ theorem dom_nonempty : Dom fx0 State.empty demo = true ∧ initsIndirect demo = 
 
 example : (evalWhole fx0 40 State.empty demo).r.out = [(1, 3), (2, 3), (3, 24), (1, 8), (4, 26)] := by decide
 example : (evalPieces fx0 40 State.empty (split [1, 1, 1, 1, 1, 1, 1, 1, 1] demo)).r.out = [(1, 3), (2, 3), (3, 24), (1, 8), (4, 26)] := by decide
+
+/-! ### constants: values fixed at declaration, iota restarts in every const declaration -/
+
+/-- a constant gets its value when it is declared: the expression evaluated with the scope's iota -/
+theorem const_value_fixed (fx : Facts) (st : Nat) (p : Tab × Nat) (x : Name) (e : KExpr) (last : Bool) :
+    lookup x (regItem fx st p (.const x e last)).1.syms = some (.const (evalK p.1 e)) := by
+  simp [regItem, lookup_cons]
+
+/-- …and no later declaration of another name changes it -/
+theorem const_value_kept (fx : Facts) (st : Nat) (p : Tab × Nat) (x : Name) (items : List Item)
+    (h : ∀ it ∈ items, it.declName ≠ some x) :
+    lookup x (regItems fx st p items).1.syms = lookup x p.1.syms :=
+  regItems_other fx st x items p h
+
+/-- **iota restarts**: after the last spec of a const declaration the scope's counter is 0 again,
+    after any other spec it is one more (the fact read from cfg.go and gta.go) -/
+theorem const_decl_resets_iota (fx : Facts) (h : fx.iotaResetAtEnd = true) (st : Nat) (p : Tab × Nat) (x : Name) (e : KExpr) :
+    (regItem fx st p (.const x e true)).1.iota = 0 ∧ (regItem fx st p (.const x e false)).1.iota = p.1.iota + 1 := by
+  simp [regItem, h]
+
+/-- only const specs move the counter -/
+theorem iota_untouched (fx : Facts) (st : Nat) (p : Tab × Nat) (it : Item) (h : it.token ≠ "const") :
+    (regItem fx st p it).1.iota = p.1.iota := by
+  cases it <;> simp_all [regItem, Item.token]
+  case func f b => split <;> rfl
+
+/-- two const declarations using iota (implicit repetition written out), a named type, a function and
+    statements that use them: in the domain, so every cut list gives the whole program (chunks_eq_whole) -/
+def demoConst : List Item :=
+  [.const "Limit" (.num 10) true,
+   .const "Red" .iota false, .const "Green" .iota false, .const "Blue" .iota true,
+   .type "Weekday",
+   .const "Monday" (.bin .add .iota (.num 1)) false, .const "Tuesday" (.bin .add .iota (.num 1)) false,
+   .const "Wednesday" (.bin .add .iota (.num 1)) true,
+   .func "scale" ⟨none, [], .bin .mul .arg (.glob "Limit")⟩,
+   .stmt (.print 1 (.glob "Blue")), .stmt (.print 2 (.glob "Monday")),
+   .stmt (.print 3 (.call "scale" (.glob "Wednesday")))]
+
+theorem const_dom : Dom fx0 State.empty demoConst = true ∧ initsIndirect demoConst = true := by decide
+
+theorem const_pieces_eq_whole (fuel : Nat) :
+    ∀ cuts, evalPieces fx0 fuel State.empty (split cuts demoConst) = evalWhole fx0 fuel State.empty demoConst :=
+  chunks_eq_whole fuel demoConst const_dom.1 const_dom.2
+
+example : (evalPieces fx0 20 State.empty (split [1, 3, 1, 3, 1] demoConst)).r.out = [(1, 2), (2, 1), (3, 30)] := by decide
+example : (evalWhole fx0 20 State.empty demoConst).global "Wednesday" = some 3 := by decide
+
+/-- without the reset the second declaration's constants are shifted (the mutated source) -/
+theorem iota_reset_needed :
+    (evalWhole { fx0 with iotaResetAtEnd := false } 20 State.empty demoConst).r.out = [(1, 3), (2, 5), (3, 70)] := by decide
 
 /-! ### what the domain excludes: witnesses (each is the replay input of a listed finding) -/
 
